@@ -201,6 +201,24 @@ def run_shard(spec):
                 V("mosek:" + f["key"], f["what"])
             else:
                 acc.count("marginal_items")
+    # licence-invalid configuration: wrapper="mosek" must fall back to the cvxpy back-end and still solve the model
+    if "replay" not in spec:
+        import os as _os
+        rng = random.Random("c11lic/%d/%s" % (spec["seed"], spec["name"]))
+        prog = gen.gen_program(rng, "method", {"cls": "SmoothStronglyConvexFunction", "mode": "single"})
+        _os.environ["PV_MOSEK_LICENSE"] = "invalid"
+        try:
+            case = driver.run_case(prog, {"wrapper": "mosek", "solver": "CLARABEL", "verbose": 0, "mode": "dual"})
+            acc.count("licence_invalid_cases")
+            used = case.rec.get("wrapper_cls") if case.rec else None
+            if used != "CvxpyWrapper" or case.machine.pep.wrapper_name != "cvxpy":
+                acc.count("violated_items")
+                acc.violations.append(driver.strip_witness(prog, case.cfg, {"key": "no_fallback_without_licence",
+                                      "what": "wrapper='mosek' without a valid licence ran %s (wrapper_name %s)" % (used, case.machine.pep.wrapper_name)}))
+            elif case.outcome[0] != "ok" or case.outcome[1] is None:
+                acc.observations.append("licence-invalid fallback did not return a value: %r" % (case.outcome,))
+        finally:
+            _os.environ["PV_MOSEK_LICENSE"] = "valid"
     acc.counters["disagreements_checked"] = acc.counters.get("violated_items", 0)
     acc.extra["monitor_events"] = dict(bd.counts)
     acc.extra["shard_wall_s"] = round(time.time() - t0, 1)
